@@ -106,7 +106,10 @@ class TestToolsTestRunner:
         )
         result.startTestRun()
         try:
-            return test.run(result)
+            # (Not every test's run() returns the result it was given:
+            # FixtureSuite's and PlaceHolder's return None.)
+            test.run(result)
+            return result
         finally:
             result.stopTestRun()
 
